@@ -48,7 +48,13 @@ SHARD_TIMEOUT = {'quick': 900, 'thorough': 3000}
 
 
 def plan(tier, seed):
-    return core.std_plan(PROP, tier, seed, quick=1600, thorough=30000)
+    specs = core.std_plan(PROP, tier, seed, quick=1600, thorough=30000)
+    if tier == 'thorough':
+        # the repository's own tests with the contracts switched on
+        specs.append({'prop': PROP, 'tier': tier, 'seed': seed,
+                      'shard': 9000, 'mode': 'repo-tests',
+                      'hashseed': 0})
+    return specs
 
 
 def fmt_num(val):
@@ -450,6 +456,13 @@ def run_case(seed, idx, tier, rec):
 
 
 def run(spec, rec):
+    if spec.get('mode') == 'repo-tests':
+        core.repo_tests_under_contracts(['TableTemplate'],
+                                        ['tests/javert', 'valjean/javert/templates.py', 'valjean/javert/table_repr.py'],
+                                        rec, {'mode': 'repo-tests'})
+        for name in DECIDING:
+            rec.count(name, 0)
+        return
     contracts.install(['TableTemplate'])
     for idx in range(spec['lo'], spec['hi']):
         try:
